@@ -921,6 +921,9 @@ def gen_constexpr(seed: int):
     elif pos == "func_arg":
         lines += ["func f(int a, Signal s) {", "    return s + a;", "}", f"Signal r = f({e}, x);"]
     elif pos == "loop_body":
+        # the folded constant is i + e for i = 0, 1: that sum may leave the range although e does not (F06 region)
+        if any(not (-2 ** 31 <= i + val < 2 ** 31) for i in (0, 1)):
+            meta["overflow"] = True
         lines += ["for i in 0..2 {", f'    Entity l = place("small-lamp", i, 0);', f"    l.enable = x > (i + {e});", "}"]
     elif pos == "offset_compare":
         # constant offset on the left, constant on the right: equivalent to `x CMP (k - e)` only without wrap-around
